@@ -7,7 +7,10 @@ META = {
             "proved to round-trip to the canonical table (NULL = empty where one spelling) for the writer that quotes CR/LF, and for the pinned writer "
             "under 'no cell contains CR/LF'; rectangularity of the loaded view for ALL byte strings under every loader option; no cell shifts its "
             "neighbours; detected line break = written line break; counter-witnesses for the pinned code. "
-            "LTSV and fixed-length (explicit delimiter positions) - writer/reader models with round-trip, refusal (refuse_or_spell) and rectangularity theorems. "
+            "LTSV - writer/reader model; refuse_or_spell (the writer accepts exactly the permitted labels/values), round trip for >= 2 distinct labels and no ':' "
+            "in values (the pinned go-text reader drops ':' and skips one-field lines: counter-witnesses proved), rectangularity for all inputs. "
+            "Fixed-length with explicit delimiter positions - refuse_or_spell (error iff positions do not increase or a text exceeds its column), round trip "
+            "under 'no text contains CR/LF' for every byte-width function with width(' ') = 1, rectangularity for all inputs and positions. "
             "Covered by correspondence / law checks only (no proof): fixed-length automatic delimiter positions (a heuristic), JSON and JSON Lines, "
             "the transcoders (UTF-8/UTF-8 BOM/UTF-16/Shift_JIS), and the 'updated file keeps its dialect' clause. "
             "Models tied to /repo on every run: model-encode = real EncodeView bytes, model-decode = real loader on arbitrary bytes, "
@@ -31,10 +34,10 @@ def run(run):
         "csv_roundtrip is the theorem for the quoting writer, csv_roundtrip_partial the one for the pinned writer",
     ]
     run.obligations_for(["Csvq.Props.C02"])
-    run.stream("c02", 2500 if q else 60000, timeout=3000)
+    run.stream("c02", 10000 if q else 150000, timeout=3000)
     if not q:
         for k in range(1, 4):
-            run.stream("c02", 40000, seed_offset=k, timeout=3000)
+            run.stream("c02", 100000, seed_offset=k, timeout=3000)
     return run.finish(
         level="proof",
         rule="tables of 0-50 rows x 1-6 columns; cells NULL / strings / integers / floats / booleans / ternaries / datetimes; string texts composed from "
